@@ -271,7 +271,7 @@ fn fz_reply(u: &mut Unstructured) -> AResult<Reply> {
         auth,
         fp,
         dup: f >> 4 == 0xF,
-        twist: if f >> 4 >= 12 { u.arbitrary::<u8>()? % 64 } else { 0 },
+        twist: if f >> 4 >= 12 { u.arbitrary::<u8>()? % 128 } else { 0 },
     })
 }
 
